@@ -5,6 +5,7 @@ import (
 	"sync/atomic"
 
 	"github.com/internetarchive/Zeno/internal/pkg/stats"
+	"github.com/internetarchive/Zeno/internal/pkg/verifhook"
 )
 
 type ControlChans struct {
@@ -27,12 +28,14 @@ func Subscribe() *ControlChans {
 		ResumeCh: make(chan struct{}),    // Unbuffered, will block on send
 	}
 	manager.subscribers.Store(chans, struct{}{})
+	verifhook.Obs("pause.subscribe", chans)
 	return chans
 }
 
 // Unsubscribe removes the subscriber and closes its channels.
 func Unsubscribe(chans *ControlChans) {
 	manager.subscribers.Delete(chans)
+	verifhook.Obs("pause.unsubscribe", chans)
 	// Close channels safely (deferred to avoid panic if already closed).
 	defer func() {
 		recover()
@@ -43,7 +46,9 @@ func Unsubscribe(chans *ControlChans) {
 
 // Pause sends a pause signal to all subscribers.
 func Pause(message ...string) {
+	verifhook.At("pause.pause.enter")
 	swap := manager.isPaused.CompareAndSwap(false, true)
+	verifhook.At("pause.pause.cas", swap)
 	if !swap {
 		return
 	}
@@ -65,11 +70,13 @@ func Pause(message ...string) {
 		}
 		return true
 	})
+	verifhook.At("pause.pause.broadcast")
 	stats.PausedSet()
 }
 
 // Resume reads from each subscriber's ResumeCh to unblock them.
 func Resume() {
+	verifhook.At("pause.resume.enter")
 	var wg sync.WaitGroup
 	manager.subscribers.Range(func(key, _ interface{}) bool {
 		chans := key.(*ControlChans)
@@ -87,6 +94,7 @@ func Resume() {
 	})
 	// Wait for all subscribers to send on their ResumeCh.
 	wg.Wait()
+	verifhook.At("pause.resume.acked")
 
 	swap := manager.isPaused.CompareAndSwap(true, false)
 	if !swap {
@@ -95,6 +103,7 @@ func Resume() {
 	manager.message = ""
 
 	stats.PausedReset()
+	verifhook.Obs("pause.resume.done")
 }
 
 func IsPaused() bool {
